@@ -3,6 +3,7 @@ package verifh
 import (
 	"errors"
 	"fmt"
+	"strings"
 	"sync"
 	"testing"
 
@@ -128,7 +129,7 @@ type c14InCase struct {
 }
 
 // mk returns a (shared, read-only) slice of length n; -1 = nil. Admission depends on lengths only, so the CONTENT is
-// varied over 16 kinds — byte patterns, ASCII digits / letters / hex / base32 text, blanks, NUL, '=' and line breaks,
+// varied over 20 kinds — byte patterns, ASCII digits / letters / hex / base32 text, blanks, NUL, '=' and line breaks,
 // valid UTF-8 made of 2-, 3- and 4-byte characters (exactly n bytes long: shorter in characters than in bytes), a mix,
 // and invalid UTF-8 — a rule that looks at what the bytes say (characters, digits, trimmed text) admits differently.
 var mkCache sync.Map // [2]int{n, kind} -> []byte
@@ -173,9 +174,37 @@ func mkBuild(n, kind int) []byte {
 		rep("😀") // 4 bytes per character
 	case 14:
 		rep("aé日😀")
-	default:
+	case 15:
 		for i := 0; i < n; i++ {
 			b = append(b, 0x80+byte(i%3)) // continuation bytes only: invalid UTF-8
+		}
+	case 16: // a zero "sign byte" in front of a value with the top bit set (what BigInteger.toByteArray / DER INTEGER produce)
+		for i := 0; i < n; i++ {
+			b = append(b, 0x80|byte(i*13))
+		}
+		if n > 0 {
+			b[0] = 0
+		}
+	case 17: // 0x00 0xff 0xff ...
+		for i := 0; i < n; i++ {
+			b = append(b, 0xff)
+		}
+		if n > 0 {
+			b[0] = 0
+		}
+	case 18: // a DER-looking prefix: tag, length, then bytes
+		for i := 0; i < n; i++ {
+			b = append(b, byte(0x41+i%26))
+		}
+		if n > 1 {
+			b[0], b[1] = 0x02, byte(n-2)
+		}
+	default: // leading and trailing zero bytes around a non-zero middle
+		for i := 0; i < n; i++ {
+			b = append(b, 0)
+		}
+		if n > 2 {
+			b[n/2] = 0x5a
 		}
 	}
 	return b[:n:n]
@@ -185,7 +214,7 @@ func mk(n int, fill byte) []byte {
 	if n < 0 {
 		return nil
 	}
-	k := [2]int{n, int(fill & 15)}
+	k := [2]int{n, int(fill % 20)}
 	if v, okk := mkCache.Load(k); okk {
 		return v.([]byte)
 	}
@@ -230,7 +259,7 @@ func checkC14In(c c14InCase) verdict {
 }
 
 var c14In = newPart("C14", "admission",
-	"enumeration over 576 usable representative suites (32 field subsets x 6 challenge formats x 3 password hashes; digits/hash rotate): every field alone at EVERY length 0..140, nil, and 24 lengths far above the limits that alias admissible lengths modulo 2^8 / 2^16 (264, 276, 288, 320, 384, 65544, ...), others valid, observed at OCRAInput.Validate + GenerateOCRA + ValidateOCRA (error kind), field contents rotating over 16 kinds (byte patterns, ASCII digits / letters / hex / base32, blanks, NUL, valid UTF-8 of 2-/3-/4-byte characters, invalid UTF-8); every pair of fields at lengths from the boundary set {0,1,7..11,19..21,31..33,63..65,127..129,140}^2 (quick) or the full 0..140 x 0..140 square (thorough) at OCRAInput.Validate, boundary pairs also through GenerateOCRA/ValidateOCRA; oracle: independent predicate written from the statement; every (suite, lengths) tuple is distinct",
+	"enumeration over 576 usable representative suites (32 field subsets x 6 challenge formats x 3 password hashes; digits/hash rotate): every field alone at EVERY length 0..140, nil, and 24 lengths far above the limits that alias admissible lengths modulo 2^8 / 2^16 (264, 276, 288, 320, 384, 65544, ...), others valid, observed at OCRAInput.Validate + GenerateOCRA + ValidateOCRA (error kind), field contents rotating over 20 kinds (byte patterns, ASCII digits / letters / hex / base32, blanks, NUL, valid UTF-8 of 2-/3-/4-byte characters, invalid UTF-8, a zero sign byte before a high-bit value, DER-looking prefixes, zero-wrapped values), one representative suite in eight with a suite-string text of 41..600 bytes (admission must not depend on the length of the assembled message); every pair of fields at lengths from the boundary set {0,1,7..11,19..21,31..33,63..65,127..129,140}^2 (quick) or the full 0..140 x 0..140 square (thorough) at OCRAInput.Validate, boundary pairs also through GenerateOCRA/ValidateOCRA; oracle: independent predicate written from the statement; every (suite, lengths) tuple is distinct",
 	checkC14In)
 
 func repSuites() []ref.OCRACfg {
@@ -240,7 +269,11 @@ func repSuites() []ref.OCRACfg {
 		for qf := 1; qf <= 6; qf++ {
 			for ph := 1; ph <= 3; ph++ {
 				i++
-				out = append(out, ref.OCRACfg{Raw: fmt.Sprintf("rep-%d", i), Hash: i % 3, Digits: 4 + i%7, C: mask&1 != 0, Q: mask&2 != 0, P: mask&4 != 0, S: mask&8 != 0, T: mask&16 != 0,
+				raw := fmt.Sprintf("rep-%d", i)
+				if i%8 == 0 {
+					raw = strings.Repeat("OCRA-1:HOTP-SHA512-8:C-QN10-PSHA512-S064-T1M/", 14)[:[]int{41, 42, 64, 100, 200, 378, 600}[(i/8)%7]]
+				}
+				out = append(out, ref.OCRACfg{Raw: raw, Hash: i % 3, Digits: 4 + i%7, C: mask&1 != 0, Q: mask&2 != 0, P: mask&4 != 0, S: mask&8 != 0, T: mask&16 != 0,
 					QFormat: qf, PHash: ph, TimeStep: 1 + i%60, SessionNN: -1})
 			}
 		}
